@@ -1,5 +1,5 @@
 """C07 — failures are contained."""
-FUNCS = ["Job.dependencychanged", "Dependency.check", "JobDependency.status", "Scheduler.aio_submit"]
+FUNCS = ["Job.dependencychanged", "Dependency.check", "JobDependency.status", "Scheduler.aio_submit", "experiment.wait.awaitcompletion"]
 LEVEL = "proof"
 TRUSTED = []
 
